@@ -88,10 +88,23 @@ def from_operator(op: OperatorTemplate, updates: dict, return_dict: dict, base: 
 
     # collect operator attributes
     new_dict = {'base': base, 'equations': op.equations, 'variables': dict(op.variables)}
-    new_dict['variables'].update(updates)
+    for key, val in updates.items():
+        new_dict['variables'][key] = _merge_value(new_dict['variables'].get(key), val)
 
     # add operator definition to the return dictionary
     return add_to_dict(op, new_dict, return_dict)
+
+
+def _merge_value(old, val):
+    """A node-level value for a variable that the operator declares as `input(..)`, `output(..)` or `variable(..)`
+    replaces only the default value inside the declaration; the declared kind (and shape) is kept."""
+    if isinstance(old, str) and isinstance(val, (int, float)) and not isinstance(val, bool) and 'complex' not in old:
+        kind = old.split('(')[0].strip()
+        if kind in ('input', 'output', 'variable'):
+            inner = old[old.index('(') + 1:old.rindex(')')].split(',') if '(' in old and ')' in old else []
+            tail = ','.join(inner[1:])
+            return f"{kind}({val}{',' + tail if tail else ''})"
+    return val
 
 
 def from_edge(edge: EdgeTemplate, return_dict: dict, base: str = 'EdgeTemplate') -> Union[str, None]:
